@@ -153,7 +153,7 @@ Proof.
             verify_dual_proof_v2 H (Some p) src tgt x talh = Ok true ->
             alh_v H t = talh /\
             verify_inclusion H (d2_incl p) src (h_bltxid t) (leaf_for H x) (h_blroot t) = true).
-  { intros p t x Tp V. unfold verify_dual_proof_v2 in V. rewrite Tp in V.
+  { intros p t x Tp V. unfold verify_dual_proof_v2, verify_dual_proof_v2_gen in V. rewrite Tp in V.
     destruct (d2_src p) as [sh|]; [|discriminate].
     destruct ((h_id sh =? 0) || negb (h_id sh =? src) || negb (h_id t =? tgt)); [discriminate|].
     destruct (tgt <? src); [discriminate|].
